@@ -400,3 +400,70 @@ pub fn run_case(idx: usize, f: fn() -> String) {
         }
     }
 }
+
+// ------------------------------------------------------------------------------------
+// Probe types for C03: which instantiations does a generic impl apply to?
+// ------------------------------------------------------------------------------------
+
+pub mod probe {
+    /// implements every std trait derive_ex can derive and every operator in all reference forms
+    #[derive(Clone, Copy, Debug, Default, PartialEq, Eq, PartialOrd, Ord, Hash)]
+    pub struct Yes;
+    /// implements nothing
+    pub struct No;
+    /// implements the std traits and every operator in its OWNED form only (`T op T`, `T op= T`, `op T`)
+    #[derive(Clone, Copy, Debug, Default, PartialEq, Eq, PartialOrd, Ord, Hash)]
+    pub struct Own;
+    /// implements no std trait itself, its associated type does
+    pub struct AY;
+    /// implements the std traits (and all operator forms) itself, its associated type implements nothing
+    #[derive(Clone, Copy, Debug, Default, PartialEq, Eq, PartialOrd, Ord, Hash)]
+    pub struct AN;
+
+    pub trait Tr {
+        type Assoc;
+    }
+    impl Tr for Yes {
+        type Assoc = Yes;
+    }
+    impl Tr for AY {
+        type Assoc = Yes;
+    }
+    impl Tr for AN {
+        type Assoc = No;
+    }
+    pub trait Marker {}
+    impl Marker for Yes {}
+    impl Marker for Own {}
+    impl Marker for AN {}
+
+    macro_rules! all_forms {
+        ($T:ident; $(($Tr:ident, $f:ident, $TrA:ident, $fa:ident)),*) => {$(
+            impl core::ops::$Tr<$T> for $T { type Output = $T; fn $f(self, _: $T) -> $T { $T } }
+            impl<'a> core::ops::$Tr<&'a $T> for $T { type Output = $T; fn $f(self, _: &'a $T) -> $T { $T } }
+            impl<'a> core::ops::$Tr<$T> for &'a $T { type Output = $T; fn $f(self, _: $T) -> $T { $T } }
+            impl<'a, 'b> core::ops::$Tr<&'b $T> for &'a $T { type Output = $T; fn $f(self, _: &'b $T) -> $T { $T } }
+            impl core::ops::$TrA<$T> for $T { fn $fa(&mut self, _: $T) {} }
+            impl<'a> core::ops::$TrA<&'a $T> for $T { fn $fa(&mut self, _: &'a $T) {} }
+        )*};
+    }
+    macro_rules! owned_forms {
+        ($T:ident; $(($Tr:ident, $f:ident, $TrA:ident, $fa:ident)),*) => {$(
+            impl core::ops::$Tr<$T> for $T { type Output = $T; fn $f(self, _: $T) -> $T { $T } }
+            impl core::ops::$TrA<$T> for $T { fn $fa(&mut self, _: $T) {} }
+        )*};
+    }
+    all_forms!(Yes; (Add, add, AddAssign, add_assign), (Sub, sub, SubAssign, sub_assign), (Mul, mul, MulAssign, mul_assign), (Div, div, DivAssign, div_assign), (Rem, rem, RemAssign, rem_assign), (BitAnd, bitand, BitAndAssign, bitand_assign), (BitOr, bitor, BitOrAssign, bitor_assign), (BitXor, bitxor, BitXorAssign, bitxor_assign), (Shl, shl, ShlAssign, shl_assign), (Shr, shr, ShrAssign, shr_assign));
+    all_forms!(AN; (Add, add, AddAssign, add_assign), (Sub, sub, SubAssign, sub_assign), (Mul, mul, MulAssign, mul_assign), (Div, div, DivAssign, div_assign), (Rem, rem, RemAssign, rem_assign), (BitAnd, bitand, BitAndAssign, bitand_assign), (BitOr, bitor, BitOrAssign, bitor_assign), (BitXor, bitxor, BitXorAssign, bitxor_assign), (Shl, shl, ShlAssign, shl_assign), (Shr, shr, ShrAssign, shr_assign));
+    owned_forms!(Own; (Add, add, AddAssign, add_assign), (Sub, sub, SubAssign, sub_assign), (Mul, mul, MulAssign, mul_assign), (Div, div, DivAssign, div_assign), (Rem, rem, RemAssign, rem_assign), (BitAnd, bitand, BitAndAssign, bitand_assign), (BitOr, bitor, BitOrAssign, bitor_assign), (BitXor, bitxor, BitXorAssign, bitxor_assign), (Shl, shl, ShlAssign, shl_assign), (Shr, shr, ShrAssign, shr_assign));
+    macro_rules! unary_all {
+        ($T:ident; $(($Tr:ident, $f:ident)),*) => {$(
+            impl core::ops::$Tr for $T { type Output = $T; fn $f(self) -> $T { $T } }
+            impl<'a> core::ops::$Tr for &'a $T { type Output = $T; fn $f(self) -> $T { $T } }
+        )*};
+    }
+    unary_all!(Yes; (Neg, neg), (Not, not));
+    unary_all!(AN; (Neg, neg), (Not, not));
+    impl core::ops::Neg for Own { type Output = Own; fn neg(self) -> Own { Own } }
+    impl core::ops::Not for Own { type Output = Own; fn not(self) -> Own { Own } }
+}
